@@ -686,6 +686,18 @@ theorem two_functions_repaired :
     outcomeOf .repaired [im] dSel [] 100 [0] = outcomeOf .repaired [leaf] dSel [] 100 [0] := by
   decide
 
+/-! (e) INTERMEDIATES THAT NEVER ANSWER. With two live brokers the root's plan has two targets
+(`flow.BuildPhysicalPlan`), `addRequests` expects two responses, but the `ReceiveOnly` target's
+`intermediateTaskProcessor.Process` answers nothing (replayed on the real code by witness case 4):
+the context stays incomplete whatever the working intermediate sends. -/
+theorem unanswered_target_never_completes (v : Variant) (r : Resp) (hr : isFailure r = false) :
+    ((Ctx.new 2).handleAll v [r]).done = false := by
+  cases r with
+  | ok p => simp only [Ctx.handleAll, List.foldl, Ctx.handle, Ctx.absorb, Ctx.new]; split <;> simp
+  | notFound => simp [Ctx.handleAll, Ctx.handle, Ctx.absorb, Ctx.new]
+  | error => cases hr
+  | bad => cases hr
+
 /-- the full-strength statement is false of the code as it is (witness (a); (b), (c), (d) refute
 it just as well) -/
 theorem full_statement_false : ¬ FullStatement .code := by
